@@ -321,10 +321,11 @@ func (s *indexKVStore) getOrCreateValue(bucketID uint32, key []byte,
 		return id, true, false, nil
 	}
 
+	// snapshot which the files are looked up with, createValue looks into the files again if a flush changed it meanwhile
+	snapshot := s.getSnapshot()
 	bucket, ok := s.bucketCache.Get(bucketID)
 	if !ok {
 		// get from kv store(persist)
-		snapshot := s.getSnapshot()
 		reader := v1.NewIndexKVReader(snapshot)
 		bucket, err = reader.GetBucket(bucketID)
 		if err != nil {
@@ -348,7 +349,7 @@ func (s *indexKVStore) getOrCreateValue(bucketID uint32, key []byte,
 		return 0, false, false, nil
 	}
 	verifhook.Yield("index.kvstore.beforeCreateValue")
-	id, isNew, err = s.createValue(bucketID, key, createFn)
+	id, isNew, err = s.createValue(bucketID, key, snapshot, createFn)
 	if err != nil {
 		return 0, false, false, err
 	}
@@ -356,7 +357,9 @@ func (s *indexKVStore) getOrCreateValue(bucketID uint32, key []byte,
 }
 
 // createValue creates new value, if the key was not created by another caller after lookup.
-func (s *indexKVStore) createValue(bucketID uint32, key []byte, createFn func() (uint32, error)) (id uint32, isNew bool, err error) {
+func (s *indexKVStore) createValue(bucketID uint32, key []byte, snapshot version.Snapshot,
+	createFn func() (uint32, error),
+) (id uint32, isNew bool, err error) {
 	s.lock.Lock()
 	defer s.lock.Unlock()
 
@@ -366,6 +369,19 @@ func (s *indexKVStore) createValue(bucketID uint32, key []byte, createFn func() 
 	}
 	if id, ok := s.getValueFromMem(s.immutable, bucketID, key); ok {
 		return id, false, nil
+	}
+	if s.snapshot != snapshot {
+		// a flush completed after the caller looked into the files, the key may be there now(created by another caller)
+		bucket, err := v1.NewIndexKVReader(s.snapshot).GetBucket(bucketID)
+		if err != nil {
+			return 0, false, err
+		}
+		if bucket != nil {
+			defer bucket.Release()
+			if id, ok := bucket.GetValue(key); ok {
+				return id, false, nil
+			}
+		}
 	}
 
 	kvs, ok := s.mutable.Get(bucketID)
